@@ -8,6 +8,7 @@ import Spydr.Edif.LemmasNames
 import Spydr.Edif.LemmasPins
 import Spydr.Edif.LemmasCell
 import Spydr.Edif.LemmasNet
+import Spydr.Edif.LemmasView
 namespace Spydr.Edif.C03
 open Spydr.Edif
 
@@ -62,53 +63,60 @@ theorem member_index_roundtrip (cx : DefCtx) (P I : Str) (k pi ii li di : Nat) (
 /-!
 ### edif_roundtrip
 
-Full statement (C03, stretch goal of DESIGN §6), kept here for reference:
-
-    theorem edif_roundtrip (n : CNetlist) (ts : List Nat) :
-        WF n → Named n → Expressible n → TopoOrdered n →
-        ∃ text n', composeE ts n = .ok text ∧ readEdif text = .ok n' ∧ view03 n' = view03 n
-    theorem parse_compose_parse : readEdif f = .ok n → (same conclusion for the edifified n)
-
-where `n` is the netlist after `_edifify_netlist` (libraries / cells in the writer's order, every
-object with its EDIF.identifier; both are read back from the implementation by the harness).
-
-Proved (`edif_roundtrip_partial` below): the statement at FILE level, from characters to netlist,
-under the hypothesis `NetOK`, which is the explicit, per-element form of WF ∧ Named ∧ Expressible ∧
-TopoOrdered *as the reader meets it*: legal identifiers, printable names and strings, pairwise
-different sibling names / identifiers-ignoring-case, non-empty ports and cables, scalar cables not
-named like a bus bit, every pin on at most one wire, canonical property dictionaries, and — for every
-reference (instance → cell, pin → port, design → top cell) — that the identifier written resolves,
-in the scope the reader has at that point, to the re-read image of the element referred to.
-The conclusion gives the re-read netlist in closed form (`readNetlist`): same libraries in the same
-order, each cell with the same ports / instances / cables (`readCell`, `readCell_ports`,
-`readCell_cables`), same top instance name and reference, same netlist name.
-
-Missing for the full statement: (1) deriving the resolution hypotheses of `InstOK.target`,
-`PinOK`, `NetOK.target` from case-insensitive distinctness + topological order of the ORIGINAL netlist
-(they follow from `resolve_ci_declared` and the closed forms of `readLibs`/`readDefs`, an index
-book-keeping argument that is not written down), (2) packaging the closed form as `view03` equality.
-Both gaps are covered on every generated netlist by the correspondence check and by P evaluated on
-the implementation.
+`n` is the netlist after `_edifify_netlist` (libraries / cells in the writer's order, every object with
+its EDIF.identifier — both are read back from the implementation by the harness; C16 / C17 own them).
+`WFNet n` is C03's quantifier as a predicate on that netlist only (see `LemmasWF.lean`):
+every element carries a legal EDIF identifier and a printable name (no double quote / line break),
+sibling names pairwise different and sibling identifiers pairwise different ignoring case, ports of
+width ≥ 1 (non-array ⇒ width 1), cables non-empty, a scalar cable's name is not read as
+`<name>[<digits>]` (the pinned finding's sub-domain), per-bit identifiers `id_i_` legal, every instance
+references a cell that precedes its own cell in the file (acyclic dependencies, writer's order), every
+pin in range and on at most one wire, `EDIF.properties` canonical with string / integer / boolean
+values, status strings printable, a named top instance referencing a cell of the netlist.
+`ScalarLower0 n`: scalar cables start at index 0.
 -/
 
-/-- **edif_roundtrip_partial / netlist_roundtrip** — characters to netlist: the text the model writer
-    lays out for a netlist satisfying `NetOK` is accepted by the model reader (tokenizer,
-    s-expression reader, `ofSExp`) and yields the netlist `readNetlist`: the same libraries, cells,
-    ports, instances, cables, top design and names. -/
-theorem edif_roundtrip_partial (n : CNetlist) (nident nname : Str) (prog ver : Option Str) (lws : List LW) (t : CInst)
+/-- **edif_roundtrip** (FULL, on the model): for every netlist inside the property's quantifier and
+    every time stamp, the s-expression the writer emits is accepted by the reader and the netlist
+    read back has the same C03 view — the same libraries, cells, ports (order, direction, width,
+    array-ness), instances (name, referenced cell and library, properties), nets (name, width, base
+    index, each wire joined to the same port bits and instance pin bits in the same order), the same
+    top design and the same original names. -/
+theorem edif_roundtrip (n : CNetlist) (prog ver : Option Str) (t : CInst) (li di : Nat) (y mo d h mi s : Nat)
+    (hwf : WFNet n prog ver t li di) (h0 : ScalarLower0 n) :
+    ∃ e n', toSExp [y, mo, d, h, mi, s] n = .ok e ∧ ofSExp e = .ok n' ∧ view03 n' = view03 n :=
+  edif_roundtrip_view n prog ver t li di y mo d h mi s hwf h0
+
+/-- … from characters: the text laid out by the model writer is read back — through the tokenizer
+    and the s-expression reader — with the same view, under the DECIDABLE hypothesis that the emitted
+    expression is clean (`cleanB`: atoms are plain words or strings without quote / line break).  The
+    driver evaluates `cleanB` for every text it writes and the harness checks the flag on every case.
+    (That `WFNet` implies it — identifiers are `[0-9A-Za-z_&]`, strings printable without a double
+    quote — is a structural induction over the writer that is not written down.) -/
+theorem edif_roundtrip_text (n : CNetlist) (prog ver : Option Str) (t : CInst) (li di : Nat)
+    (y mo d h mi s : Nat) (hwf : WFNet n prog ver t li di) (h0 : ScalarLower0 n)
+    (hclean : ∀ e, toSExp [y, mo, d, h, mi, s] n = .ok e → e.cleanB = true) :
+    ∃ text n', composeE [y, mo, d, h, mi, s] n = .ok text ∧ readEdif text = .ok n' ∧ view03 n' = view03 n := by
+  obtain ⟨e, n', hw, hr, hv⟩ := edif_roundtrip n prog ver t li di y mo d h mi s hwf h0
+  refine ⟨layoutE e, n', by simp [composeE, hw, bind, Except.bind, pure, Except.pure], ?_, hv⟩
+  simp [readEdif, Spydr.Edif.read_lex_layout e (cleanB_sound e (hclean e hw)), hr]
+
+/-- the closed form behind it: the netlist read back, under the explicit chain of resolution
+    hypotheses `NetOK` (which `WFNet` implies, `netOK_of_wf`) -/
+theorem edif_roundtrip_closed_form (n : CNetlist) (nident nname : Str) (prog ver : Option Str) (lws : List LW) (t : CInst)
     (tident tname : Str) (li di : Nat) (y mo d h mi s : Nat)
     (hok : NetOK n nident nname prog ver lws t tident tname li di) :
     ∃ e, toSExp [y, mo, d, h, mi, s] n = .ok e ∧
       ofSExp e = .ok (readNetlist n nident nname
-        [Int.ofNat y, Int.ofNat mo, Int.ofNat d, Int.ofNat h, Int.ofNat mi, Int.ofNat s] prog ver lws tident tname li di) ∧
-      (e.clean → ∃ text, composeE [y, mo, d, h, mi, s] n = .ok text ∧
-        readEdif text = .ok (readNetlist n nident nname
-          [Int.ofNat y, Int.ofNat mo, Int.ofNat d, Int.ofNat h, Int.ofNat mi, Int.ofNat s] prog ver lws tident tname li di)) := by
-  obtain ⟨e, hw, hr⟩ := netlist_roundtrip n nident nname prog ver lws t tident tname li di y mo d h mi s hok
-  refine ⟨e, hw, hr, ?_⟩
-  intro hc
-  refine ⟨layoutE e, by simp [composeE, hw, bind, Except.bind, pure, Except.pure], ?_⟩
-  simp [readEdif, Spydr.Edif.read_lex_layout e hc, hr]
+        [Int.ofNat y, Int.ofNat mo, Int.ofNat d, Int.ofNat h, Int.ofNat mi, Int.ofNat s] prog ver lws tident tname li di) :=
+  netlist_roundtrip n nident nname prog ver lws t tident tname li di y mo d h mi s hok
+
+/-!
+`parse_compose_parse` (parse(compose(parse f)) = parse f for every accepted f) is NOT proved as a
+theorem: it needs "every netlist the reader returns satisfies `WFNet` after `_edifify_netlist`", which
+is false at the pinned commit exactly on the open findings (direction-less ports, one-pin arrays) and
+otherwise is evaluated on the implementation for every generated text and bundled file.
+-/
 
 /-- **edif_roundtrip_cell / cell_roundtrip** — the statement for ONE cell in the reader's scope: the
     reader applied to the s-expression the writer emits for the cell returns a cell with the same
@@ -267,8 +275,121 @@ theorem n0_NetOK : NetOK n0 "design1".toList "design1".toList none none [lw0] { 
 example : ∃ e, toSExp [2026, 9, 27, 8, 5, 3] n0 = .ok e ∧
     ofSExp e = .ok (readNetlist n0 "design1".toList "design1".toList [2026, 9, 27, 8, 5, 3] none none [lw0]
       "top".toList "top".toList 0 1) :=
-  let ⟨e, h1, h2, _⟩ := edif_roundtrip_partial n0 _ _ _ _ _ _ _ _ _ _ 2026 9 27 8 5 3 n0_NetOK
-  ⟨e, h1, h2⟩
+  edif_roundtrip_closed_form n0 _ _ _ _ _ _ _ _ _ _ 2026 9 27 8 5 3 n0_NetOK
+
+/-! and the same netlist satisfies the hypotheses of the FULL theorem, stated on the netlist alone -/
+
+theorem named' (s : String) (hc : checkEdifIdentifier s.toList = true) (hs : s.toList.all isStringChar = true) :
+    NamedOK (nd s) (idOf (nd s)) (nmOf (nd s)) := ⟨rfl, hc, rfl, hs⟩
+
+theorem mem_lib0 {l : CLib} (h : l ∈ [lib0]) : l = lib0 := by simpa using h
+
+theorem n0_names : NetNames [lib0] := by
+  have hdefs : ∀ d ∈ lib0.defs, d = leaf ∨ d = top := by intro d hd; simpa [lib0] using hd
+  refine ⟨?_, by simp [Distinct], ?_, ?_, ?_, ?_⟩
+  · intro l hl; rw [mem_lib0 hl]; exact named' "work" (by decide) (by decide)
+  · intro l hl d hd; rw [mem_lib0 hl] at hd
+    rcases hdefs d hd with rfl | rfl
+    · exact named' "leaf" (by decide) (by decide)
+    · exact ⟨rfl, by decide, rfl, by decide⟩
+  · intro l hl; rw [mem_lib0 hl]; show Distinct [leaf.data, top.data]
+    simp only [Distinct, List.pairwise_cons, List.mem_singleton, forall_eq, List.not_mem_nil, false_implies, implies_true,
+      List.Pairwise.nil, and_true]
+    decide
+  · intro l hl d hd p hp; rw [mem_lib0 hl] at hd
+    rcases hdefs d hd with rfl | rfl
+    · simp only [leaf, List.mem_cons, List.not_mem_nil, or_false] at hp
+      rcases hp with rfl | rfl
+      · exact ⟨named' "A" (by decide) (by decide), by decide, fun _ => rfl⟩
+      · exact ⟨named' "B" (by decide) (by decide), by decide, fun h => by simp [CPort.isArray, CPort.isScalar] at h⟩
+    · simp only [top, List.mem_singleton] at hp
+      subst hp
+      exact ⟨named' "x" (by decide) (by decide), by decide, fun _ => rfl⟩
+  · intro l hl d hd; rw [mem_lib0 hl] at hd
+    rcases hdefs d hd with rfl | rfl
+    · show Distinct [(nd "A"), (nd "B")]
+      simp only [Distinct, List.pairwise_cons, List.mem_singleton, forall_eq, List.not_mem_nil, false_implies, implies_true,
+        List.Pairwise.nil, and_true]
+      decide
+    · simp [Distinct, top]
+
+theorem n0_WFNet : WFNet n0 none none { data := nd "top", ref := some (0, 1) } 0 1 := by
+  refine ⟨n0_names, ?_, named' "design1" (by decide) (by decide), ⟨rfl, fun h => (by simp at h), fun p hp => (by cases hp),
+    fun v hv => (by cases hv)⟩, rfl, named' "top" (by decide) (by decide), rfl, ⟨lib0, top, rfl, rfl⟩⟩
+  intro L l hl D d hd
+  have hL : L = 0 ∧ l = lib0 := by
+    cases L with
+    | zero => exact ⟨rfl, by simpa [n0] using hl.symm⟩
+    | succ k => simp [n0] at hl
+  obtain ⟨rfl, rfl⟩ := hL
+  have hD : (D = 0 ∧ d = leaf) ∨ (D = 1 ∧ d = top) := by
+    cases D with
+    | zero => left; exact ⟨rfl, by simpa [lib0] using hd.symm⟩
+    | succ k => cases k with
+      | zero => right; exact ⟨rfl, by simpa [lib0] using hd.symm⟩
+      | succ j => simp [lib0] at hd
+  rcases hD with ⟨rfl, rfl⟩ | ⟨rfl, rfl⟩
+  · exact ⟨fun i hi => (by cases hi), (by simp [Distinct, leaf]), fun c hc => (by cases hc), (by simp [Distinct, leaf]), (by decide)⟩
+  · refine ⟨?_, by simp [Distinct, top], ?_, ?_, by decide⟩
+    · intro i hi
+      simp only [top, List.mem_singleton] at hi
+      subst hi
+      exact ⟨named' "u1" (by decide) (by decide), ⟨0, 0, lib0, leaf, rfl, rfl, rfl, Or.inr ⟨rfl, by decide⟩⟩, Or.inl rfl⟩
+    · intro c hc
+      simp only [top, List.mem_cons, List.not_mem_nil, or_false] at hc
+      have hpx : PinWF [lib0] top (.port 0 0) := ⟨_, rfl, by decide, fun _ => rfl⟩
+      have hpA : PinWF [lib0] top (.inst 0 0 0) := ⟨_, 0, 0, lib0, leaf, _, rfl, rfl, rfl, rfl, rfl, by decide, fun _ => rfl⟩
+      have hpB : ∀ b, b < 2 → PinWF [lib0] top (.inst 0 1 b) := fun b hb =>
+        ⟨_, 0, 0, lib0, leaf, _, rfl, rfl, rfl, rfl, rfl, hb, fun h => by simp [CPort.isArray, CPort.isScalar] at h⟩
+      rcases hc with rfl | rfl
+      · refine ⟨named' "n1" (by decide) (by decide), by decide, ?_, fun _ _ => ⟨by decide +kernel, by decide⟩,
+          fun h => absurd ⟨rfl, rfl⟩ h⟩
+        intro w hw pin hp
+        simp only [List.mem_singleton] at hw
+        subst hw
+        simp only [List.mem_cons, List.not_mem_nil, or_false] at hp
+        rcases hp with rfl | rfl
+        · exact hpx
+        · exact hpA
+      · refine ⟨named' "bus" (by decide) (by decide), by decide, ?_, fun h => absurd h (by decide), ?_⟩
+        · intro w hw pin hp
+          simp only [List.mem_cons, List.not_mem_nil, or_false] at hw
+          rcases hw with rfl | rfl <;> (simp only [List.mem_singleton] at hp; subst hp)
+          · exact hpB 0 (by decide)
+          · exact hpB 1 (by decide)
+        · intro _ k hk
+          have : k = 0 ∨ k = 1 := by
+            have : k < 2 := hk
+            omega
+          rcases this with rfl | rfl <;> exact ⟨by decide +kernel, by decide +kernel, by decide +kernel⟩
+    · show Distinct [(nd "n1"), (nd "bus")]
+      simp only [Distinct, List.pairwise_cons, List.mem_singleton, forall_eq, List.not_mem_nil, false_implies, implies_true,
+        List.Pairwise.nil, and_true]
+      decide
+
+theorem n0_scalar : ScalarLower0 n0 := by
+  intro l hl d hd c hc _ _
+  have : l = lib0 := by simpa [n0] using hl
+  subst this
+  have hd' : d = leaf ∨ d = top := by simpa [lib0] using hd
+  rcases hd' with rfl | rfl
+  · cases hc
+  · simp only [top, List.mem_cons, List.not_mem_nil, or_false] at hc
+    rcases hc with rfl | rfl
+    · rfl
+    · rename_i h1 _; simp at h1
+
+/-- hence, for this netlist: written, read back, same C03 view -/
+example : ∃ e n', toSExp [2026, 9, 27, 8, 5, 3] n0 = .ok e ∧ ofSExp e = .ok n' ∧ view03 n' = view03 n0 :=
+  edif_roundtrip n0 none none _ 0 1 2026 9 27 8 5 3 n0_WFNet n0_scalar
+
+/-- the decidable hypothesis holds for it, so the round trip holds from characters -/
+example : ∃ text n', composeE [2026, 9, 27, 8, 5, 3] n0 = .ok text ∧ readEdif text = .ok n' ∧ view03 n' = view03 n0 := by
+  apply edif_roundtrip_text n0 none none _ 0 1 2026 9 27 8 5 3 n0_WFNet n0_scalar
+  intro e he
+  have : (match toSExp [2026, 9, 27, 8, 5, 3] n0 with | .ok e => e.cleanB | .error _ => false) = true := by decide +kernel
+  rw [he] at this
+  exact this
 
 end Example
 
